@@ -8,261 +8,13 @@
 
 use crate::common::*;
 use crate::frames::{self, FrameCase};
-use crate::refz::{self, CP};
-use ruzstd::decoding::{BlockDecodingStrategy, Dictionary, FrameDecoder, StreamingDecoder};
+use crate::refz;
 use serde_json::{json, Value};
-use std::io::{Read, Write};
 use std::sync::atomic::{AtomicU64, Ordering};
 use std::sync::{Mutex, OnceLock};
 use std::time::{Duration, Instant};
 
-const OUTPUT_CAP: usize = 64 << 20;
-pub const ENTRY_POINTS: [&str; 11] = [
-    "StreamingDecoder::read small buffer",
-    "StreamingDecoder::read large buffer",
-    "decode_blocks(All)+collect",
-    "decode_blocks(UptoBlocks)+read",
-    "decode_blocks(UptoBytes)+collect_to_writer",
-    "decode_from_to whole",
-    "decode_from_to chunked",
-    "decode_all",
-    "decode_all_to_vec",
-    "hostile dictionary",
-    "Dictionary::decode_dict",
-];
-
-struct ShortSink {
-    n: usize,
-    fail_every: usize,
-    calls: usize,
-}
-impl Write for ShortSink {
-    fn write(&mut self, buf: &[u8]) -> std::io::Result<usize> {
-        self.calls += 1;
-        if self.fail_every != 0 && self.calls % self.fail_every == 0 {
-            return Err(std::io::Error::from(std::io::ErrorKind::WouldBlock));
-        }
-        let k = buf.len().min(97);
-        self.n += k;
-        Ok(k)
-    }
-    fn flush(&mut self) -> std::io::Result<()> {
-        Ok(())
-    }
-}
-
-fn good_frame() -> &'static (Vec<u8>, Vec<u8>) {
-    static G: OnceLock<(Vec<u8>, Vec<u8>)> = OnceLock::new();
-    G.get_or_init(|| {
-        let data: Vec<u8> = (0..20_000u32).map(|i| (i % 251) as u8 ^ (i / 300) as u8).collect();
-        (refz::compress(&data, 3, &[CP::ChecksumFlag(true), CP::WindowLog(12)], None).unwrap(), data)
-    })
-}
-
-/// valid frames with Huffman literals, FSE tables, repeat offsets and a checksum, decoded before some of the hostile inputs
-fn history_frames() -> &'static Vec<(Vec<u8>, Vec<u8>)> {
-    static H: OnceLock<Vec<(Vec<u8>, Vec<u8>)>> = OnceLock::new();
-    H.get_or_init(|| {
-        let mut out = vec![good_frame().clone()];
-        let text: Vec<u8> = (0..6000u32).flat_map(|i| format!("line {} of some text, {}\n", i % 97, i * i % 1000).into_bytes()).collect();
-        out.push((refz::compress(&text, 19, &[CP::ChecksumFlag(true)], None).unwrap(), text));
-        out
-    })
-}
-
-/// Drive one input through one entry point with a legal call sequence. Returns a coarse outcome class.
-/// Any panic propagates to the caller (that is the violation).
-pub fn drive(entry: usize, input: &[u8], aux: &[u8], limit_8mib: bool) -> String {
-    let mut d = FrameDecoder::new();
-    if limit_8mib {
-        d.set_max_window_size(8 << 20);
-    }
-    // a third of the cases run on a decoder that has decoded valid frames before (Huffman and FSE tables,
-    // repeat offsets, checksum and window contents of those frames are still in it): also a legal call sequence
-    if aux.first().map(|b| b % 3 == 0).unwrap_or(false) && entry != 10 {
-        for (g, want) in history_frames() {
-            let mut src = &g[..];
-            let ok = d.reset(&mut src).is_ok() && d.decode_blocks(&mut src, BlockDecodingStrategy::All).is_ok() && d.collect().as_deref() == Some(&want[..]);
-            if !ok {
-                return "REUSE-FAILED in the history".to_string();
-            }
-        }
-    }
-    let mut produced = 0usize;
-    let outcome: String = match entry {
-        0 | 1 => match StreamingDecoder::new_with_decoder(input, &mut d) {
-            Err(e) => format!("init error: {}", variant(&e)),
-            Ok(mut s) => {
-                let mut buf = vec![0u8; if entry == 0 { 37 } else { 200_000 }];
-                loop {
-                    match s.read(&mut buf) {
-                        Ok(0) => break "ok".to_string(),
-                        Ok(n) => {
-                            produced += n;
-                            if produced > OUTPUT_CAP {
-                                break "abandoned at the output cap".to_string();
-                            }
-                        }
-                        Err(_) => break "read error".to_string(),
-                    }
-                }
-            }
-        },
-        2..=4 => {
-            let mut src = input;
-            match d.reset(&mut src) {
-                Err(e) => format!("init error: {}", variant(&e)),
-                Ok(()) => {
-                    let mut sink = ShortSink { n: 0, fail_every: 5, calls: 0 };
-                    loop {
-                        let strat = match entry {
-                            2 => BlockDecodingStrategy::All,
-                            3 => BlockDecodingStrategy::UptoBlocks(1),
-                            _ => BlockDecodingStrategy::UptoBytes(3000),
-                        };
-                        match d.decode_blocks(&mut src, strat) {
-                            Err(e) => {
-                                // legal after an error: drain and query
-                                let _ = d.collect();
-                                let _ = d.can_collect();
-                                let _ = d.is_finished();
-                                let _ = d.bytes_read_from_source();
-                                break format!("decode error: {}", variant(&e));
-                            }
-                            Ok(_) => {}
-                        }
-                        match entry {
-                            2 => produced += d.collect().map(|v| v.len()).unwrap_or(0),
-                            3 => {
-                                let mut buf = [0u8; 1000];
-                                loop {
-                                    let n = Read::read(&mut d, &mut buf).unwrap_or(0);
-                                    produced += n;
-                                    if n == 0 {
-                                        break;
-                                    }
-                                }
-                            }
-                            _ => {
-                                let mut guard = 0;
-                                while d.can_collect() > 0 && guard < 100_000 {
-                                    guard += 1;
-                                    let _ = d.collect_to_writer(&mut sink);
-                                }
-                                produced = sink.n;
-                            }
-                        }
-                        if d.is_finished() {
-                            break "ok".to_string();
-                        }
-                        if produced > OUTPUT_CAP {
-                            break "abandoned at the output cap".to_string();
-                        }
-                    }
-                }
-            }
-        },
-        5 | 6 => {
-            let mut target = vec![0u8; if entry == 5 { 70_000 } else { 333 }];
-            let chunk = if entry == 5 { input.len().max(1) } else { 40.max(aux.first().copied().unwrap_or(0) as usize * 8) };
-            let mut pos = 0usize;
-            let mut end = chunk.min(input.len()).max(18.min(input.len()));
-            let mut idle = 0;
-            loop {
-                match d.decode_from_to(&input[pos..end], &mut target) {
-                    Err(e) => break format!("decode error: {}", variant(&e)),
-                    Ok((r, w)) => {
-                        if r > end - pos {
-                            // more consumed than given: C06's business, stop here
-                            break "overread".to_string();
-                        }
-                        pos += r;
-                        produced += w;
-                        if r == 0 && w == 0 {
-                            if end == input.len() {
-                                idle += 1;
-                                if idle > 2 {
-                                    break if d.is_finished() { "ok".to_string() } else { "needs more input".to_string() };
-                                }
-                            } else {
-                                end = (end + chunk).min(input.len());
-                            }
-                        }
-                        if produced > OUTPUT_CAP {
-                            break "abandoned at the output cap".to_string();
-                        }
-                    }
-                }
-            }
-        }
-        7 => {
-            let mut out = vec![0u8; 300_000];
-            match d.decode_all(input, &mut out) {
-                Ok(_) => "ok".to_string(),
-                Err(e) => format!("error: {}", variant(&e)),
-            }
-        }
-        8 => {
-            let mut out = Vec::with_capacity(300_000);
-            match d.decode_all_to_vec(input, &mut out) {
-                Ok(()) => "ok".to_string(),
-                Err(e) => format!("error: {}", variant(&e)),
-            }
-        }
-        9 => {
-            // `aux` is a (possibly hostile) dictionary, `input` a frame that wants one
-            match Dictionary::decode_dict(aux) {
-                Err(_) => "dictionary rejected".to_string(),
-                Ok(dict) => {
-                    let id = dict.id;
-                    let _ = d.add_dict(dict);
-                    let mut src = input;
-                    match d.reset(&mut src) {
-                        Err(e) => format!("init error: {}", variant(&e)),
-                        Ok(()) => {
-                            let _ = d.force_dict(id);
-                            match d.decode_blocks(&mut src, BlockDecodingStrategy::All) {
-                                Ok(_) => {
-                                    let _ = d.collect();
-                                    "ok with hostile dictionary".to_string()
-                                }
-                                Err(e) => {
-                                    let _ = d.collect();
-                                    format!("decode error: {}", variant(&e))
-                                }
-                            }
-                        }
-                    }
-                }
-            }
-        }
-        _ => match Dictionary::decode_dict(input) {
-            Ok(_) => "dictionary accepted".to_string(),
-            Err(_) => "dictionary rejected".to_string(),
-        },
-    };
-    // after an error (or success) the same decoder can be reset and used again
-    if entry != 10 {
-        let (g, want) = good_frame();
-        let mut src = &g[..];
-        let ok = d.reset(&mut src).is_ok() && d.decode_blocks(&mut src, BlockDecodingStrategy::All).is_ok() && d.collect().as_deref() == Some(&want[..]);
-        if !ok {
-            return format!("REUSE-FAILED after: {outcome}");
-        }
-    }
-    outcome
-}
-
-fn variant<E: std::fmt::Debug>(e: &E) -> String {
-    let s = format!("{e:?}");
-    // up to two levels of variant names
-    let mut parts = s.split(|c: char| !(c.is_alphanumeric() || c == '_')).filter(|p| !p.is_empty() && p.chars().next().map(|c| c.is_uppercase()).unwrap_or(false));
-    let a = parts.next().unwrap_or("").to_string();
-    match parts.next() {
-        Some(b) => format!("{a}/{b}"),
-        None => a,
-    }
-}
+pub use wlcore::hostile::{drive, ENTRY_POINTS, OUTPUT_CAP};
 
 // ------------------------------------------------------------------ mutators
 
